@@ -539,6 +539,14 @@ func fmtBinaryOne(root, text, prop string) (v *lang.Verdict, after string, ran i
 	t.Reset()
 	proj := t.Mkdir("home/w/proj")
 	path := t.File("home/w/proj/spokfile", text)
+	// what an interrupted editor or an interrupted earlier --fmt may have left next to it
+	var junk strings.Builder
+	for i := 0; junk.Len() < 6000; i++ {
+		fmt.Fprintf(&junk, "task leftover%c%c() {\n    echo leftover\n}\n\n", 'a'+i/26%26, 'a'+i%26)
+	}
+	for _, n := range []string{"spokfile.tmp", ".spokfile.tmp", "spokfile~", "spokfile.new", "spokfile.bak", ".spokfile.swp", "spokfile.orig"} {
+		t.File("home/w/proj/"+n, junk.String())
+	}
 	o := bin.Run(proj, filepath.Join(root, "home"), nil, "--fmt")
 	ran++
 	if o.Died() {
